@@ -369,3 +369,26 @@ func init() {
 		return one(st, x.newBytes(st, x.readComp(st, ecdhPubPrefix, SStr, c.Args[0].T), c.ResT.At(0).Type()))
 	})
 }
+
+const hmacKeyPrefix = "F!hmac.Hash!$key"
+
+func init() {
+	reg("crypto/hmac.New", func(x *Exec, st *State, c *CallCtx) []Outcome {
+		declCrypto(x)
+		x.registerPrefix(hmacKeyPrefix, types.Typ[types.String])
+		r := x.alloc(st)
+		x.writeComp(st, hmacKeyPrefix, SStr, r, x.bc(st, c.Args[1]))
+		x.declIfaceFns()
+		id := x.fresh(st, "hmac", SInt)
+		st.assume(Gt(id, IntT(0)))
+		st.assume(Eq(app("payl", SInt, id), r))
+		return one(st, Val{K: VIface, T: id, GoT: c.ResT.At(0).Type()})
+	})
+	reg("iface:hash.Hash.Sum", func(x *Exec, st *State, c *CallCtx) []Outcome {
+		declCrypto(x)
+		x.registerPrefix(hmacKeyPrefix, types.Typ[types.String])
+		x.declIfaceFns()
+		key := x.readComp(st, hmacKeyPrefix, SStr, app("payl", SInt, c.Args[0].T))
+		return one(st, x.newBytes(st, app("hmacSum", SStr, key, x.bc(st, c.Args[1])), c.ResT.At(0).Type()))
+	})
+}
